@@ -67,6 +67,10 @@ type Config struct {
 	// DeadlockIsViolation: treat "all goroutines are asleep" / a classified
 	// deadlock dump as a violation of the property (C01, C12 ...).
 	DeadlockIsViolation bool
+	// SpinIsViolation: a case that makes no progress for the whole watchdog period, twice (the second time alone in a
+	// fresh process), with a goroutine running or runnable inside desync code, is a violation (class spin): the
+	// operation never returns.
+	SpinIsViolation bool
 	// RaceIsViolation: a data race with desync frames on both sides is a violation.
 	RaceIsViolation bool
 	// CrashClass maps a crash (stderr of the child) to a finding class.
@@ -654,12 +658,12 @@ wait:
 	case timedOut:
 		if dumpIsDeadlock(stderr) {
 			class = "hang"
-		} else if cfg.DeadlockIsViolation && spinsInDesync(stderr) && retry {
+		} else if (cfg.DeadlockIsViolation || cfg.SpinIsViolation) && spinsInDesync(stderr) && retry {
 			// No progress for the whole watchdog period (orders of magnitude above a normal case), twice, in a fresh
 			// process the second time, with a goroutine burning CPU inside desync code: reproducible non-termination
 			// of an operation whose property promises termination.
 			class = "spin"
-		} else if cfg.DeadlockIsViolation && spinsInDesync(stderr) && !retry {
+		} else if (cfg.DeadlockIsViolation || cfg.SpinIsViolation) && spinsInDesync(stderr) && !retry {
 			saveWitness(cfg.Prop, seed, caseIdx, "watchdog-first", stderr)
 			os.RemoveAll(cdir)
 			r2, v2, _ := runChildOpt(cfg, self, tier, seed, work, bi+1000000, caseIdx, caseIdx+1, extraEnv, replay, true)
